@@ -56,6 +56,7 @@ fn models() -> Vec<BTreeMap<u32, Vec<u32>>> {
     // (aborted): add 8 ; (cancelled, aborted): add 9
     m.insert(10, vec_for(10, 3));
     m.remove(&3);
+    m.remove(&5); // overwritten, then deleted in the same round
     out.push(m); // v6
     out
 }
@@ -240,6 +241,11 @@ fn writer_script(env: &crate::common::Env, db: RawDb, y: &(dyn Fn(&'static str) 
     writer.add_item(&mut wtxn, 10, &floats_of(&vec_for(10, 3))).map_err(e)?;
     y("del");
     writer.del_item(&mut wtxn, 3).map_err(e)?;
+    // an indexed item overwritten and then deleted in the same round
+    y("add");
+    writer.add_item(&mut wtxn, 5, &floats_of(&vec_for(5, 6))).map_err(e)?;
+    y("del");
+    writer.del_item(&mut wtxn, 5).map_err(e)?;
     y("build");
     build(&mut wtxn, 3, 15, None).map_err(e)?;
     y("commit");
